@@ -108,29 +108,199 @@ package database
 //@   modifies ghost(nexec)
 //@   ensures nexec() == old(nexec()) + 1
 //@ func SanitizeSQLiteIdentifiers
-//@   trusted
 //@   modifies nothing
+//@   ensures err == nil ==> len(result) == len(names) && forall(i, 0, len(result), safe(result[i]))
+//@   loop 1 invariant 0 <= rangeidx && len(result) == len(names) && fresh(result) && forall(j, 0, rangeidx, safe(result[j]))
 //@ func SanitizeIdentifiers
-//@   trusted
 //@   modifies nothing
+//@   ensures err == nil ==> len(result) == len(names) && forall(i, 0, len(result), safe(result[i]))
+//@   loop 1 invariant 0 <= rangeidx && len(result) == len(names) && fresh(result) && forall(j, 0, rangeidx, safe(result[j]))
 //@ func SanitizeMySQLIdentifiers
-//@   trusted
 //@   modifies nothing
+//@   ensures err == nil ==> len(result) == len(names) && forall(i, 0, len(result), safe(result[i]))
+//@   loop 1 invariant 0 <= rangeidx && len(result) == len(names) && fresh(result) && forall(j, 0, rangeidx, safe(result[j]))
 //@ func (*SQLiteDB).BulkInsert
 //@   requires s != nil
+//@   literals safe
+//@   callpre (*database.SQLiteDB).Exec safe(arg2)
+//@   loop 1 invariant bsafe(ref(qb))
+//@   loop 2 invariant bsafe(ref(qb))
 //@   ensures nexec() == old(nexec()) || nexec() == old(nexec()) + 1
 //@   ensures result == nil && len(values) > 0 ==> nexec() == old(nexec()) + 1
 //@   loop 1 invariant nexec() == old(nexec())
 //@   loop 2 invariant nexec() == old(nexec())
 //@ func (*PostgresDB).BulkInsert
 //@   requires p != nil
+//@   literals safe
+//@   callpre (*database.PostgresDB).Exec safe(arg2)
+//@   loop 1 invariant bsafe(ref(qb))
+//@   loop 2 invariant bsafe(ref(qb))
 //@   ensures nexec() == old(nexec()) || nexec() == old(nexec()) + 1
 //@   ensures result == nil && len(values) > 0 ==> nexec() == old(nexec()) + 1
 //@   loop 1 invariant nexec() == old(nexec())
 //@   loop 2 invariant nexec() == old(nexec())
 //@ func (*MySQLDB).BulkInsert
 //@   requires m != nil
+//@   literals safe
+//@   callpre (*database.MySQLDB).Exec safe(arg2)
+//@   loop 1 invariant bsafe(ref(qb))
+//@   loop 2 invariant bsafe(ref(qb))
 //@   ensures nexec() == old(nexec()) || nexec() == old(nexec()) + 1
 //@   ensures result == nil && len(values) > 0 ==> nexec() == old(nexec()) + 1
 //@   loop 1 invariant nexec() == old(nexec())
 //@   loop 2 invariant nexec() == old(nexec())
+
+// ---- SQL text provenance (C13) -----------------------------------------------------------
+// safe(s): s is made of fixed template text, validated identifiers, allow-listed words and digits.
+// Every statement handed to the database satisfies safe; caller values travel only as arguments.
+// The identifier patterns admit only [A-Za-z_][A-Za-z0-9_]* (checked structurally on the pattern
+// literals); such a name, and its quoted form, cannot leave the identifier position.
+//@ axiom identSafePg(s string): libm("(*regexp.Regexp).MatchString", bool, identifierPattern, s) ==> safe(s)
+//@ axiom identSafeSqlite(s string): libm("(*regexp.Regexp).MatchString", bool, sqliteIdentifierPattern, s) ==> safe(s)
+//@ axiom identSafeMysql(s string): libm("(*regexp.Regexp).MatchString", bool, mysqlIdentifierPattern, s) ==> safe(s)
+
+//@ func SanitizeIdentifier
+//@   literals safe
+//@   modifies nothing
+//@   ensures err == nil ==> safe(result)
+//@   ensures err != nil ==> result == ""
+//@ func SanitizeSQLiteIdentifier
+//@   literals safe
+//@   modifies nothing
+//@   ensures err == nil ==> safe(result)
+//@   ensures err != nil ==> result == ""
+//@ func SanitizeMySQLIdentifier
+//@   literals safe
+//@   modifies nothing
+//@   ensures err == nil ==> safe(result)
+//@   ensures err != nil ==> result == ""
+
+//@ func (*QueryBuilder).Build
+//@   requires qb != nil && qb.orm != nil
+//@   literals safe
+//@   ensures err == nil ==> safe(result)
+//@   loop 1 invariant 0 <= rangeidx && len(sanitizedSelectCols) == len(qb.selectCols) && fresh(sanitizedSelectCols) && forall(j, 0, rangeidx, safe(sanitizedSelectCols[j])) && safe(sanitizedTable)
+//@   loop 2 invariant safe(query) && safe(sanitizedTable)
+//@   loop 3 invariant safe(query)
+
+// the ORM's three statement helpers only ever receive safe statement text
+//@ func scanRow
+//@   trusted
+//@   modifies nothing
+//@ func scanRows
+//@   trusted
+//@   modifies nothing
+
+//@ func (*ORM).Create
+//@   requires o != nil
+//@   literals safe
+//@   callpre (*database.ORM).queryRow safe(arg2)
+//@   loop 1 invariant safe(sanitizedTable) && forall(j, 0, len(sanitizedColumns), safe(sanitizedColumns[j])) && forall(j, 0, len(placeholders), safe(placeholders[j]))
+//@   loop 1 invariant allocated(columns) && allocated(sanitizedColumns) && allocated(placeholders) && base(sanitizedColumns) != base(placeholders) && base(columns) != base(placeholders) && base(columns) != base(sanitizedColumns)
+//@ func (*ORM).Update
+//@   requires o != nil
+//@   literals safe
+//@   callpre (*database.ORM).queryRow safe(arg2)
+//@   loop 1 invariant safe(sanitizedTable) && forall(j, 0, len(setClauses), safe(setClauses[j]))
+//@   loop 1 invariant allocated(setClauses) && allocated(columns) && base(setClauses) != base(columns)
+//@ func (*ORM).Delete
+//@   requires o != nil
+//@   literals safe
+//@   callpre (*database.ORM).exec safe(arg2)
+//@ func (*ORM).Count
+//@   requires o != nil
+//@   literals safe
+//@   callpre (*database.ORM).queryRow safe(arg2)
+//@   loop 1 invariant safe(query)
+//@ func (*QueryBuilder).Get
+//@   requires qb != nil && qb.orm != nil
+//@   callpre (*database.ORM).Query safe(arg2)
+
+// Column "types" are type + constraint text. The patterns admit only letters, digits, '_', ' ', '(', ')', ',', '.'
+// (checked structurally on the literals): such text cannot end the statement or open a string or comment.
+//@ axiom colTypeSafePg(s string): libm("(*regexp.Regexp).MatchString", bool, columnTypePattern, s) ==> safe(s)
+//@ axiom colTypeSafeSqlite(s string): libm("(*regexp.Regexp).MatchString", bool, sqliteColumnTypePattern, s) ==> safe(s)
+//@ axiom colTypeSafeMysql(s string): libm("(*regexp.Regexp).MatchString", bool, mysqlColumnTypePattern, s) ==> safe(s)
+// strictColType(s): s contains no comma outside parentheses, so one schema entry cannot smuggle a further
+// column definition into CREATE TABLE (hasTopLevelComma is the executable definition of that notion).
+//@ spec func strictColType(s string) bool = !libcall(hasTopLevelComma, s)
+//@ func hasTopLevelComma
+//@   modifies nothing
+//@   functional
+//@   strict
+//@   loop 1 invariant 0 <= i && i <= len(s) && 0 <= depth && depth <= i
+//@ func sanitizeColumnType
+//@   modifies nothing
+//@   ensures err == nil ==> safe(result) && result == colType
+//@   check err == nil ==> strictColType(result)
+//@ func sanitizeSQLiteColumnType
+//@   modifies nothing
+//@   ensures err == nil ==> safe(result) && result == colType
+//@   check err == nil ==> strictColType(result)
+//@ func sanitizeMySQLColumnType
+//@   modifies nothing
+//@   ensures err == nil ==> safe(result) && result == colType
+//@   check err == nil ==> strictColType(result)
+
+//@ func (*SQLiteDB).CreateTable
+//@   requires s != nil
+//@   literals safe
+//@   callpre (*database.SQLiteDB).Exec safe(arg2)
+//@   loop 1 invariant safe(sanitizedTable) && forall(j, 0, len(columnDefs), safe(columnDefs[j]))
+//@ func (*SQLiteDB).DropTable
+//@   requires s != nil
+//@   literals safe
+//@   callpre (*database.SQLiteDB).Exec safe(arg2)
+//@ func (*SQLiteDB).TableExists
+//@   requires s != nil
+//@   literals safe
+//@   callpre (*database.SQLiteDB).QueryRow safe(arg2)
+//@ func (*SQLiteDB).GetLastInsertID
+//@   requires s != nil
+//@   literals safe
+//@   callpre (*database.SQLiteDB).QueryRow safe(arg2)
+//@ func (*SQLiteDB).QueryRow
+//@   trusted
+//@   modifies nothing
+
+//@ func (*PostgresDB).CreateTable
+//@   requires p != nil
+//@   literals safe
+//@   callpre (*database.PostgresDB).Exec safe(arg2)
+//@   loop 1 invariant safe(sanitizedTable) && forall(j, 0, len(columnDefs), safe(columnDefs[j]))
+//@ func (*PostgresDB).DropTable
+//@   requires p != nil
+//@   literals safe
+//@   callpre (*database.PostgresDB).Exec safe(arg2)
+//@ func (*PostgresDB).TableExists
+//@   requires p != nil
+//@   literals safe
+//@   callpre (*database.PostgresDB).QueryRow safe(arg2)
+//@ func (*PostgresDB).GetLastInsertID
+//@   requires p != nil
+//@   literals safe
+//@   callpre (*database.PostgresDB).QueryRow safe(arg2)
+//@ func (*PostgresDB).QueryRow
+//@   trusted
+//@   modifies nothing
+
+//@ func (*MySQLDB).CreateTable
+//@   requires m != nil
+//@   literals safe
+//@   callpre (*database.MySQLDB).Exec safe(arg2)
+//@   loop 1 invariant safe(sanitizedTable) && forall(j, 0, len(columnDefs), safe(columnDefs[j]))
+//@ func (*MySQLDB).DropTable
+//@   requires m != nil
+//@   literals safe
+//@   callpre (*database.MySQLDB).Exec safe(arg2)
+//@ func (*MySQLDB).TableExists
+//@   requires m != nil
+//@   literals safe
+//@   callpre (*database.MySQLDB).QueryRow safe(arg2)
+//@ func (*MySQLDB).GetLastInsertID
+//@   requires m != nil
+//@   literals safe
+//@   callpre (*database.MySQLDB).QueryRow safe(arg2)
+//@ func (*MySQLDB).QueryRow
+//@   trusted
+//@   modifies nothing
